@@ -158,7 +158,7 @@ def dev_answer(default_fn, alts, dev):
     return answer
 
 
-def run_dev(cfg, default_fn, alts, dev, h, visitor, batch=1):
+def run_dev(cfg, default_fn, alts, dev, h, visitor, batch=1, refine_at=None):
     """one complete execution of h trials in DoGlobalIteration(batch) calls; nodes after the last deviation are new"""
     run = make_run(cfg, dev_answer(default_fn, alts, dev), listeners=_listeners(visitor, cfg))
     visitor.begin(run, cfg)
@@ -185,6 +185,13 @@ def run_dev(cfg, default_fn, alts, dev, h, visitor, batch=1):
             nodes += min(k, j - new_from + 1)
         for m in visitor.node(run, j, new) or ():
             msgs_all.append((j, m))
+        if refine_at is not None and j == refine_at[0]:
+            # a local refinement between two global iterations (public step-wise API); the search goes on afterwards
+            try:
+                run.refine(refine_at[1], lambda y: default_fn(0, y))
+            except BaseException as e:
+                msgs_all.append((j, f"DoLocalRefinement({refine_at[1]}) raised {type(e).__name__}: {e} after trial {j}"))
+                return nodes, j, msgs_all
     for m in visitor.leaf(run) or ():
         msgs_all.append((h, m))
     return nodes, h, msgs_all
